@@ -110,6 +110,12 @@ func cmdRun(args []string) {
 		os.Stdout.Write(b)
 	}
 	if *forkstats {
+		symex.QueryReasons.Range(func(k, v interface{}) bool {
+			fmt.Fprintf(os.Stderr, "queries[%v] = %d\n", k, *(v.(*int64)))
+			return true
+		})
+	}
+	if *forkstats {
 		type kv struct {
 			k string
 			v int
